@@ -4,12 +4,20 @@ use amv::fw::*;
 use amv::gen::{actor, GenState, Profile, World};
 use amv::obs::{enc_name, enc_width, exid_str, observe};
 use amv::util::*;
-use automerge::{AutoCommit, ObjId, ObjType, ReadDoc, ScalarValue, TextEncoding, Value};
+use automerge::{AutoCommit, ChangeHash, ObjId, ObjType, ReadDoc, ScalarValue, TextEncoding, Value};
 use serde_json::json;
 
 pub struct C24;
 
 fn check_text(cx: &mut Ctx, label: &str, d: &AutoCommit, t: &ObjId, enc: TextEncoding, log: &[String]) -> bool {
+    check_text_at(cx, label, d, t, enc, log, None)
+}
+
+/// the same walk through the `*_at(heads)` forms of the reads
+fn check_text_at(cx: &mut Ctx, label: &str, d: &AutoCommit, t: &ObjId, enc: TextEncoding, log: &[String], heads: Option<&[ChangeHash]>) -> bool {
+    if let Some(h) = heads {
+        return check_text_hist(cx, label, d, t, enc, log, h);
+    }
     let text = match d.text(t) {
         Ok(s) => s,
         Err(e) => {
@@ -89,6 +97,81 @@ fn check_text(cx: &mut Ctx, label: &str, d: &AutoCommit, t: &ObjId, enc: TextEnc
     true
 }
 
+fn check_text_hist(cx: &mut Ctx, label: &str, d: &AutoCommit, t: &ObjId, enc: TextEncoding, log: &[String], h: &[ChangeHash]) -> bool {
+    let Ok(text) = d.text_at(t, h) else { return true }; // the object may not exist at these heads
+    if d.object_type(t).ok() != Some(ObjType::Text) {
+        return true;
+    }
+    let len = d.length_at(t, h);
+    cx.count("historical_texts_checked");
+    let detail = || json!({"doc": label, "text_at": text, "encoding": enc_name(enc), "obj": exid_str(t), "heads": hash_hex(h), "log": tail(log, 20)});
+    let w = enc_width(enc, &text);
+    if w != len {
+        cx.violation(&format!("historical|length-not-width|{}", enc_name(enc)), format!("{label}: length_at(heads) = {len} but the width of text_at(heads) {text:?} in {} units is {w}", enc_name(enc)), detail());
+        return false;
+    }
+    let mut at = 0usize;
+    let mut cat = String::new();
+    while at < len {
+        let piece = match d.get_at(t, at, h) {
+            Ok(Some((Value::Scalar(s), _))) => match s.as_ref() {
+                ScalarValue::Str(s) => s.to_string(),
+                _ => "\u{fffc}".to_string(),
+            },
+            Ok(Some((Value::Object(_), _))) => "\u{fffc}".to_string(),
+            other => {
+                cx.violation("historical|get-in-range-empty", format!("{label}: get_at(text, {at}, heads) with {at} < length_at {len} returned {other:?}"), detail());
+                return false;
+            }
+        };
+        let pw = enc_width(enc, &piece).max(1);
+        match d.get_cursor(t, at, Some(h)) {
+            Ok(c) => match d.get_cursor_position(t, &c, Some(h)) {
+                Ok(p) if p == at => cx.count("historical_cursor_roundtrips"),
+                other => {
+                    cx.violation(&format!("historical|cursor-roundtrip|{}", enc_name(enc)), format!("{label}: get_cursor_position(get_cursor({at}, heads), heads) = {other:?}"), detail());
+                    return false;
+                }
+            },
+            Err(e) => {
+                cx.violation("historical|get-cursor-failed", format!("{label}: get_cursor(text, {at}, heads) failed: {e}"), detail());
+                return false;
+            }
+        }
+        cat.push_str(&piece);
+        at += pw;
+    }
+    if cat != text || at != len {
+        cx.violation("historical|elements-do-not-concatenate", format!("{label}: walking get_at(i) by widths gives {cat:?} (ends at {at}), text_at() is {text:?} (length_at {len})"), detail());
+        return false;
+    }
+    // spans_at concatenate to text_at (blocks as U+FFFC)
+    if let Ok(spans) = d.spans_at(t, h) {
+        let mut s = String::new();
+        for sp in spans {
+            match sp {
+                automerge::iter::Span::Text { text, .. } => s.push_str(&text),
+                automerge::iter::Span::Block(_) => s.push('\u{fffc}'),
+            }
+        }
+        if s != text {
+            cx.violation("historical|spans-do-not-concatenate", format!("{label}: spans_at(heads) concatenate to {s:?} but text_at(heads) is {text:?}"), detail());
+            return false;
+        }
+    }
+    // the End cursor resolves to the historical length
+    if let Ok(c) = d.get_cursor(t, automerge::CursorPosition::End, Some(h)) {
+        match d.get_cursor_position(t, &c, Some(h)) {
+            Ok(p) if p == len => {}
+            other => {
+                cx.violation("historical|end-cursor", format!("{label}: the End cursor at heads resolves to {other:?}, length_at is {len}"), detail());
+                return false;
+            }
+        }
+    }
+    true
+}
+
 impl Check for C24 {
     fn id(&self) -> &'static str {
         "C24"
@@ -97,16 +180,16 @@ impl Check for C24 {
         tier.pick(1600, 100_000)
     }
     fn rule(&self) -> String {
-        "case = for one of the four text encodings (case index mod 4), a seeded multi-replica history of text edits (ASCII, accents, CJK, emoji, combining sequences, ZWJ families, flags, skin-tone modifiers, block markers, marks, concurrent inserts at equal positions, deletes, update_text) followed by merges; on every replica, the merged document and its reload: length() = width of text() in the encoding (the harness computes widths itself), walking get(i) by element widths reproduces text(), get_cursor/get_cursor_position round-trips at every element boundary, and the OBS deep reads (spans concatenate to the text with blocks as U+FFFC, marks()/get_marks()/span marks use the same unit positions) are consistent; then 5–15 model-checked calls (SEQ) are applied to the merged document so that splice_text/mark/split_block indexes are verified to be in that encoding's units. Non-trivial = the text holds a multi-unit character and a delete or a merge happened; distinct by (encoding, text, history).".into()
+        "case = for one of the four text encodings (case index mod 4), a seeded multi-replica history of text edits (ASCII, accents, CJK, emoji, combining sequences, ZWJ families, flags, skin-tone modifiers, block markers, marks, concurrent inserts at equal positions, deletes, update_text) followed by merges; on every replica, the merged document and its reload: length() = width of text() in the encoding (the harness computes widths itself), walking get(i) by element widths reproduces text(), get_cursor/get_cursor_position round-trips at every element boundary, and the OBS deep reads (spans concatenate to the text with blocks as U+FFFC, marks()/get_marks()/span marks use the same unit positions) are consistent; the same walk is repeated through the *_at(heads) forms (length_at = width of text_at, get_at by widths, cursors at heads, spans_at concatenation, End cursor = length_at) at up to 4 (thorough 8) historical head sets of the merged document; half of the cases also use element-level calls on text (put/insert/delete of a string at a text index, so that concurrent overwrites leave conflicted text elements); then 5–15 model-checked calls (SEQ) are applied to the merged document so that splice_text/mark/split_block indexes are verified to be in that encoding's units. Non-trivial = the text holds a multi-unit character and a delete or a merge happened; distinct by (encoding, text, history).".into()
     }
     fn required_counters(&self) -> Vec<&'static str> {
-        vec!["texts_checked", "multi_unit_elements", "cursor_roundtrips", "blocks_seen", "enc_codepoint", "enc_utf8", "enc_utf16", "enc_grapheme", "effects_compared"]
+        vec!["texts_checked", "historical_texts_checked", "historical_cursor_roundtrips", "multi_unit_elements", "cursor_roundtrips", "blocks_seen", "enc_codepoint", "enc_utf8", "enc_utf16", "enc_grapheme", "effects_compared"]
     }
     fn run_case(&self, cx: &mut Ctx, case: u64, rng: &mut Rng) {
         let enc = amv::obs::ENCODINGS[(case % 4) as usize];
         cx.count(&format!("enc_{}", enc_name(enc)));
         let n = rng.range(2, 3);
-        let prof = Profile { lists: false, counters: false, nested: true, keys: 2, exotic: false, ..Profile::contention() };
+        let prof = Profile { lists: false, counters: false, nested: true, keys: 2, exotic: false, text_elem_ops: case % 8 >= 4, ..Profile::contention() };
         let mut w = World::new(rng, n, enc, prof);
         w.verbose = cx.verbose;
         // bias: most edits go to text objects (the registry starts with the shared text)
@@ -138,6 +221,21 @@ impl Check for C24 {
             for (id, typ) in &o.objects {
                 if *typ == ObjType::Text && !check_text(cx, label, d, id, enc, &log) {
                     return;
+                }
+            }
+        }
+        // the same reads at historical heads (clock-scoped paths), on the merged document
+        {
+            let mut sets = w.head_sets.clone();
+            rng.shuffle(&mut sets);
+            sets.truncate(cx.tier.pick(4, 8));
+            let known: std::collections::BTreeSet<ChangeHash> = m.get_changes(&[]).iter().map(|c| c.hash()).collect();
+            let texts: Vec<ObjId> = w.gs.objs.iter().filter(|(_, t)| *t == ObjType::Text).map(|(i, _)| i.clone()).collect();
+            for h in sets.iter().filter(|h| h.iter().all(|x| known.contains(x))) {
+                for t in &texts {
+                    if !check_text_at(cx, "merged (historical)", &m, t, enc, &log, Some(h)) {
+                        return;
+                    }
                 }
             }
         }
